@@ -376,6 +376,7 @@ def classify_stream(rep, obs, rows, finding_ids, corr_name, max_report=3):
     finding_ids: guard number -> finding id (only findings still open).
     Returns counters."""
     corr_fail_prop_ok = []
+    masked = []
     n_viol = 0
     for pos, o in enumerate(obs):
         r = rows.get(pos)
@@ -401,10 +402,19 @@ def classify_stream(rep, obs, rows, finding_ids, corr_name, max_report=3):
                                "how": "implementation output differs from the model and violates the property predicate"})
         else:
             if fids:
-                for fid in fids:
-                    rep.not_reproduced[fid] = rep.not_reproduced.get(fid, 0) + 1
+                masked.append((o, fids))
             else:
                 corr_fail_prop_ok.append(o)
+    # "finding not reproduced" (implementation differs from the model, property predicate holds, a guard fires) is a
+    # pass only when it can be explained by the finding having been repaired: i.e. when at least one of the findings whose
+    # guard fires is not observed anywhere in this run.  If every such finding IS still observed on other cases, the
+    # mismatch is not a repair but a change the guard would otherwise swallow: it goes to the correspondence-broken search.
+    for o, fids in masked:
+        if all(rep.known.get(fid, 0) > 0 for fid in fids):
+            corr_fail_prop_ok.append(o)
+        else:
+            for fid in fids:
+                rep.not_reproduced[fid] = rep.not_reproduced.get(fid, 0) + 1
     return corr_fail_prop_ok, n_viol
 
 
